@@ -432,8 +432,12 @@ def gc_scope_consistent(path):
     scope = path.env.get('scope')
     for e in _git_effects(path):
         el = _elts(e.args[0])
-        if el is None or len(el) < 3 or [x.t for x in el[:2] if x.kind == 'const'] != ['git', 'config']:
-            return False, 'git invocation at line %s is not a literal `git config ...` list' % e.node.lineno
+        if el is None:
+            # the command is not written as a list display here (built by a helper, joined from parts, ...): nothing can be said
+            # about it on this path -- the function leaves the recognised form and the bounded part decides
+            raise _oos('git command at line %s is not a list display' % e.node.lineno)
+        if len(el) < 3 or [x.t for x in el[:2] if x.kind == 'const'] != ['git', 'config']:
+            return False, 'git invocation at line %s is not `git config ...`' % e.node.lineno
         has_flag = el[2].kind != 'const'          # the flag is the only non-literal element ('--%s' % scope)
         want, _, _ = path.entails(truth(scope))
         wantnot, _, _ = path.entails(z3.Not(truth(scope)))
@@ -444,8 +448,15 @@ def gc_scope_consistent(path):
     return True, '%d git invocations carry the requested scope' % len(_git_effects(path))
 
 
+def _oos(msg):
+    from pyvc.frontend import OutOfSubset
+    return OutOfSubset(msg)
+
+
 def _tail(e):
     el = _elts(e.args[0])
+    if el is None or len(el) < 3:
+        raise _oos('git command at line %s is not a list display' % e.node.lineno)
     t = el[2:] if el[2].kind == 'const' else el[3:]
     return t
 
